@@ -665,6 +665,17 @@ fn c07_asm_texts(two_lines: bool) -> Vec<String> {
     out
 }
 
+fn c11_big_texts(n: usize) -> Vec<String> {
+    let list = |sep: &str, item: &dyn Fn(usize) -> String| (0..n).map(|i| item(i)).collect::<Vec<_>>().join(sep);
+    vec![
+        format!("const T: array[0..{}] of Integer = ({});\n", n - 1, list(", ", &|i| (i % 97).to_string())),
+        format!("begin\n  f({});\nend.\n", list(", ", &|i| format!("a{}", i % 13))),
+        format!("begin\n  x := {};\nend.\n", list(" + ", &|i| (i % 7).to_string())),
+        format!("uses {};\n", list(", ", &|i| format!("Unit{i}"))),
+        format!("const S = {};\n", list(" + ", &|i| format!("'s{}'", i % 11))),
+    ]
+}
+
 const W_QUICK: [u32; 6] = [16, 24, 30, 60, 120, 200];
 const W_FULL: [u32; 13] = [10, 16, 20, 24, 30, 40, 50, 60, 80, 100, 120, 160, 200];
 
@@ -1520,6 +1531,10 @@ pub fn families(check: &str, tier: &str) -> Vec<Box<dyn Family>> {
                 })),
                 sf("c11", &wf_seeds(), &bases[..nb], Box::new(move |s, c, ctx| o2::c11_dense(&s.text, ws, c, None, ctx))),
                 tf("c11lits", two_lits(), &bases[..1], wf_lits_box(Box::new(move |x, c, ctx| o2::c11_dense(x, ws, c, Some("multi-line-literals"), ctx)))),
+                // single logical lines of several thousand tokens (generated tables): budgets of the search
+                // (iteration limit) must not make the outcome depend on the width
+                tf("c11big", Texts { name: "long-logical-lines".into(), items: c11_big_texts(if quick { 3000 } else { 6000 }) }, &bases[..1],
+                   Box::new(|x, c, ctx| o2::c11_dense(x, &[20, 25, 30, 38, 39, 40, 60, 80, 120, 200], c, None, ctx))),
             ]
         }
         "C13" => {
